@@ -29,8 +29,10 @@ import (
 
 	mapset "github.com/deckarep/golang-set/v2"
 	sio "github.com/karagenc/socket.io-go"
+	"github.com/karagenc/socket.io-go/adapter"
 	eio "github.com/karagenc/socket.io-go/engine.io"
 	eioparser "github.com/karagenc/socket.io-go/engine.io/parser"
+	"github.com/karagenc/socket.io-go/parser"
 	"nhooyr.io/websocket"
 
 	"verifharness/vk"
@@ -52,7 +54,7 @@ type admCase struct {
 	Sess  int    `json:"sess"`
 	Pos   int    `json:"pos"` // position of the attempt on its Engine.IO connection
 	V     []int  `json:"v"`
-	J     []int  `json:"j"` // 0: no Join call, 1: Join("r<i>"), 2: Join() with no room, 3: Join("r<i>","shared")
+	J     []int  `json:"j"` // 0: no Join call, 1: Join("r<i>"), 2: Join() with no room, 3: Join("r<i>","shared"), 4: go Join("slow<i>") held in the adapter, 5: go Join("late<i>") started after the answer
 
 	Calls   []viewObs `json:"calls"`   // middleware calls, in the order they happened
 	Handler []viewObs `json:"handler"` // connection handler runs for this case's socket(s)
@@ -77,6 +79,8 @@ type admCase struct {
 	mu      sync.Mutex
 	hch     chan struct{}
 	hclosed bool
+	late    chan struct{}   // closed to let the "late" Joins start
+	async   []chan struct{} // one per Join goroutine, closed when it returned
 }
 
 // what the server shows about one socket id at one moment
@@ -128,7 +132,7 @@ func observe(nsp *sio.Namespace, sock sio.ServerSocket, sid string, mw int, k in
 	o.ReachOwn = ad.Sockets(mapset.NewSet[sio.Room](sio.Room(sid))).Contains(sio.SocketID(sid))
 	names := []string{"shared"}
 	for i := 0; i < k; i++ {
-		names = append(names, "r"+strconv.Itoa(i))
+		names = append(names, "r"+strconv.Itoa(i), "slow"+strconv.Itoa(i), "late"+strconv.Itoa(i))
 	}
 	for _, r := range names {
 		if ad.Sockets(mapset.NewSet[sio.Room](sio.Room(r))).Contains(sio.SocketID(sid)) {
@@ -139,7 +143,73 @@ func observe(nsp *sio.Namespace, sock sio.ServerSocket, sid string, mw int, k in
 	return o
 }
 
+// holdAdapter wraps the in-memory adapter: AddAll for a room named "slow..." is held up - the Join
+// that issued it stays in progress (ServerSocket.Join holds the socket's joinMu meanwhile) - until
+// DeleteAll was called for the same socket id, or holdFor has passed.  A deterministic way to keep a
+// Join in progress across the rest of the chain and the clean-up, without any hook.
+const holdFor = 250 * time.Millisecond
+
+type holdAdapter struct {
+	adapter.Adapter
+	mu      sync.Mutex
+	entered map[string]chan struct{} // sid|room -> closed when AddAll was entered
+	deleted map[string]chan struct{} // sid -> closed by the first DeleteAll
+}
+
+func (a *holdAdapter) ch(m map[string]chan struct{}, key string) chan struct{} {
+	a.mu.Lock()
+	defer a.mu.Unlock()
+	c := m[key]
+	if c == nil {
+		c = make(chan struct{})
+		m[key] = c
+	}
+	return c
+}
+
+func (a *holdAdapter) AddAll(sid sio.SocketID, rooms []sio.Room) {
+	for _, room := range rooms {
+		if strings.HasPrefix(string(room), "slow") {
+			e := a.ch(a.entered, string(sid)+"|"+string(room))
+			select {
+			case <-e:
+			default:
+				close(e)
+			}
+			select {
+			case <-a.ch(a.deleted, string(sid)):
+			case <-time.After(holdFor):
+			}
+			break
+		}
+	}
+	a.Adapter.AddAll(sid, rooms)
+}
+
+func (a *holdAdapter) DeleteAll(sid sio.SocketID) {
+	a.Adapter.DeleteAll(sid)
+	d := a.ch(a.deleted, string(sid))
+	a.mu.Lock()
+	select {
+	case <-d:
+	default:
+		close(d)
+	}
+	a.mu.Unlock()
+}
+
+func holdAdapterCreator(reg func(nsp *holdAdapter)) adapter.Creator {
+	inner := adapter.NewInMemoryAdapterCreator()
+	return func(store adapter.SocketStore, pc parser.Creator) adapter.Adapter {
+		h := &holdAdapter{Adapter: inner(store, pc), entered: map[string]chan struct{}{}, deleted: map[string]chan struct{}{}}
+		reg(h)
+		return h
+	}
+}
+
 type admRig struct {
+	holds  []*holdAdapter
+	hmu    sync.Mutex
 	srv    *sio.Server
 	ts     *httptest.Server
 	nsp    *sio.Namespace
@@ -179,6 +249,11 @@ func newAdmRig(name string, k int) (*admRig, error) {
 		hobs: map[string][]viewObs{}, anyh: map[string]int{}, socks: map[string]sio.ServerSocket{}}
 	cfg := &sio.ServerConfig{}
 	cfg.EIO.WebSocketAcceptOptions = &websocket.AcceptOptions{CompressionMode: websocket.CompressionDisabled}
+	cfg.AdapterCreator = holdAdapterCreator(func(h *holdAdapter) {
+		r.hmu.Lock()
+		r.holds = append(r.holds, h)
+		r.hmu.Unlock()
+	})
 	r.srv = sio.NewServer(cfg)
 	if err := r.srv.Run(); err != nil {
 		return nil, err
@@ -234,6 +309,32 @@ func newAdmRig(name string, k int) (*admRig, error) {
 				socket.Join()
 			case 3:
 				socket.Join(sio.Room("r"+strconv.Itoa(i)), sio.Room("shared"))
+			case 4:
+				// a Join on a goroutine of the middleware's own; the middleware goes on once the
+				// Join is in progress (it has reached the adapter, which holds it up)
+				done := make(chan struct{})
+				c.mu.Lock()
+				c.async = append(c.async, done)
+				c.mu.Unlock()
+				room := sio.Room("slow" + strconv.Itoa(i))
+				go func() {
+					defer close(done)
+					socket.Join(room)
+				}()
+				r.waitEntered(sid, string(room))
+			case 5:
+				// a Join that starts only after the client got its answer
+				done := make(chan struct{})
+				c.mu.Lock()
+				c.async = append(c.async, done)
+				gate := c.late
+				c.mu.Unlock()
+				room := sio.Room("late" + strconv.Itoa(i))
+				go func() {
+					defer close(done)
+					<-gate
+					socket.Join(room)
+				}()
 			}
 			switch v {
 			case 1:
@@ -268,6 +369,51 @@ func newAdmRig(name string, k int) (*admRig, error) {
 	})
 	r.ts = httptest.NewServer(r.srv)
 	return r, nil
+}
+
+// wait until the Join for (sid, room) is inside the adapter's AddAll (bounded)
+func (r *admRig) waitEntered(sid, room string) {
+	deadline := time.After(mwWait)
+	for {
+		r.hmu.Lock()
+		holds := append([]*holdAdapter{}, r.holds...)
+		r.hmu.Unlock()
+		for _, h := range holds {
+			h.mu.Lock()
+			e := h.entered[sid+"|"+room]
+			h.mu.Unlock()
+			if e != nil {
+				select {
+				case <-e:
+					return
+				default:
+				}
+			}
+		}
+		select {
+		case <-deadline:
+			return
+		case <-time.After(time.Millisecond):
+		}
+	}
+}
+
+// after the answer (and the handler) was seen: let the late Joins run, wait for every Join goroutine
+func (c *admCase) settleAsync() {
+	c.mu.Lock()
+	select {
+	case <-c.late:
+	default:
+		close(c.late)
+	}
+	as := append([]chan struct{}{}, c.async...)
+	c.mu.Unlock()
+	for _, d := range as {
+		select {
+		case <-d:
+		case <-time.After(mwWait):
+		}
+	}
 }
 
 func (c *admCase) signalHandler() {
@@ -471,6 +617,7 @@ func (r *admRig) runSession(cases []*admCase, start <-chan struct{}, wg *sync.Wa
 		pk, st := p.wait(r.name, mwWait, 0, 4)
 		if st != "ok" {
 			c.Resp = st
+			c.settleAsync()
 			c.Post = r.postView(c)
 			continue
 		}
@@ -508,6 +655,7 @@ func (r *admRig) runSession(cases []*admCase, start <-chan struct{}, wg *sync.Wa
 			c.Resp = "connect_error"
 			c.MsgKind, c.MsgMw, c.MsgCode = classifyMessage(pk.body, c.ID)
 		}
+		c.settleAsync()
 		c.Post = r.postView(c)
 		if pk.typ == 0 {
 			// reachable by a broadcast to its own room
@@ -567,7 +715,7 @@ func isAccept(v []int) bool {
 }
 
 // runs all cases of one (namespace, k) server; returns finished cases
-func runAdmServer(name string, k int, conc int, rnd *vk.Rand, nextID *int, perConn int, joinVariants int) ([]*admCase, []string, error) {
+func runAdmServer(name string, k int, conc int, rnd *vk.Rand, nextID *int, perConn int, jvFrom int, joinVariants int) ([]*admCase, []string, error) {
 	r, err := newAdmRig(name, k)
 	if err != nil {
 		return nil, nil, err
@@ -575,9 +723,9 @@ func runAdmServer(name string, k int, conc int, rnd *vk.Rand, nextID *int, perCo
 	t0 := time.Now()
 	var all []*admCase
 	for _, v := range enumVectors(k) {
-		for jv := 0; jv < joinVariants; jv++ {
+		for jv := jvFrom; jv < jvFrom+joinVariants; jv++ {
 			c := &admCase{ID: *nextID, Suite: "adm", Nsp: name, K: k, Conc: conc, V: v, J: make([]int, k),
-				Calls: []viewObs{}, Handler: []viewObs{}, Sids: []string{}, MsgMw: -1, MsgCode: -1, hch: make(chan struct{})}
+				Calls: []viewObs{}, Handler: []viewObs{}, Sids: []string{}, MsgMw: -1, MsgCode: -1, hch: make(chan struct{}), late: make(chan struct{})}
 			*nextID++
 			for i := range c.J {
 				switch jv {
@@ -585,8 +733,17 @@ func runAdmServer(name string, k int, conc int, rnd *vk.Rand, nextID *int, perCo
 					c.J[i] = 0
 				case 1:
 					c.J[i] = rnd.Intn(4)
-				default:
+				case 2:
 					c.J[i] = 1
+				case 3: // a Join in progress while the rest of the chain runs
+					c.J[i] = 4
+				case 4: // Joins started after the answer
+					c.J[i] = 5
+				default: // anything, at least one asynchronous Join
+					c.J[i] = rnd.Intn(6)
+					if i == 0 {
+						c.J[i] = 4 + rnd.Intn(2)
+					}
 				}
 			}
 			all = append(all, c)
@@ -596,10 +753,14 @@ func runAdmServer(name string, k int, conc int, rnd *vk.Rand, nextID *int, perCo
 	// more admitted sockets (the all-accept vector is one in 4^k): five extra ones with random joins
 	for e := 0; e < 5; e++ {
 		c := &admCase{ID: *nextID, Suite: "adm", Nsp: name, K: k, Conc: conc, V: make([]int, k), J: make([]int, k),
-			Calls: []viewObs{}, Handler: []viewObs{}, Sids: []string{}, MsgMw: -1, MsgCode: -1, hch: make(chan struct{})}
+			Calls: []viewObs{}, Handler: []viewObs{}, Sids: []string{}, MsgMw: -1, MsgCode: -1, hch: make(chan struct{}), late: make(chan struct{})}
 		*nextID++
 		for i := range c.J {
-			c.J[i] = rnd.Intn(4)
+			if jvFrom >= 3 {
+				c.J[i] = rnd.Intn(6)
+			} else {
+				c.J[i] = rnd.Intn(4)
+			}
 		}
 		all = append(all, c)
 		r.cases[c.ID] = c
@@ -719,7 +880,8 @@ func middlewareMain(args []string) error {
 	maxLen := fs.Int("maxlen", 3, "max chain length")
 	conc := fs.Int("conc", 8, "concurrent sessions")
 	perConn := fs.Int("perconn", 3, "rejected attempts per connection before an accepted one")
-	joinVariants := fs.Int("joinvariants", 3, "join patterns per vector (none, random, Join(r_i))")
+	joinVariants := fs.Int("joinvariants", 3, "join patterns per vector (none, random, Join(r_i); then the asynchronous ones: in progress, late, mixed)")
+	jvFrom := fs.Int("jvfrom", 0, "first join pattern (3 = the asynchronous patterns)")
 	n := fs.Int("n", 0, "case limit (admgo)")
 	outp := fs.String("out", "-", "")
 	fs.Parse(args)
@@ -734,7 +896,7 @@ func middlewareMain(args []string) error {
 		id := 0
 		for _, name := range []string{"/", "/chat"} {
 			for k := 0; k <= *maxLen; k++ {
-				cases, stray, err := runAdmServer(name, k, *conc, rnd, &id, *perConn, *joinVariants)
+				cases, stray, err := runAdmServer(name, k, *conc, rnd, &id, *perConn, *jvFrom, *joinVariants)
 				if err != nil {
 					return err
 				}
